@@ -1,0 +1,63 @@
+"""
+Optional event tracing for the verification harness that lives outside this repository.
+
+Inactive unless the environment variable ``ASPHALT_VERIF_HOOKS`` is set to ``trace`` when
+:mod:`asphalt.core` is imported. When active, teardown callbacks are wrapped so that their
+registration, invocation and completion append plain dictionaries to :data:`TRACE`;
+nothing else changes.
+"""
+
+from __future__ import annotations
+
+import os
+from inspect import isawaitable
+from itertools import count
+from typing import Any, Callable
+
+ON: bool = os.environ.get("ASPHALT_VERIF_HOOKS") == "trace"
+TRACE: list[dict[str, Any]] = []
+_registrations = count(1)
+
+
+def emit(**event: Any) -> None:
+    TRACE.append(event)
+
+
+def traced_teardown(
+    ctx: object, callback: Callable[..., Any], pass_exception: bool
+) -> Callable[..., Any]:
+    """Wrap a teardown callback so that it reports when it is registered, begins and ends."""
+    ident = next(_registrations)  # one identity per registration, not per callable
+    emit(ev="reg", ctx=id(ctx), cb=ident, **{"pass": pass_exception})
+
+    def wrapper(*args: Any) -> Any:
+        emit(
+            ev="cb.begin",
+            ctx=id(ctx),
+            cb=ident,
+            hasarg=bool(args),
+            arg=(id(args[0]) if args[0] is not None else 0) if args else 0,
+        )
+        try:
+            retval = callback(*args)
+        except BaseException:
+            emit(ev="cb.end", ctx=id(ctx), cb=ident, raised=True)
+            raise
+
+        if isawaitable(retval):
+
+            async def finish() -> None:
+                try:
+                    await retval
+                except BaseException:
+                    emit(ev="cb.end", ctx=id(ctx), cb=ident, raised=True)
+                    raise
+
+                emit(ev="cb.end", ctx=id(ctx), cb=ident, raised=False)
+
+            return finish()
+
+        emit(ev="cb.end", ctx=id(ctx), cb=ident, raised=False)
+        return retval
+
+    return wrapper
